@@ -353,8 +353,16 @@ WTarget(fs, op, Q, L, f, n) ==
            symbol) counts as defined iff the file OWNING THE NAME got loaded *)
         pushed == ~own /\ s # NoSym /\ (weak \/ s.f = f)
         dropped == pushed /\ (IF "weakZero" \in Q THEN s.f \notin L ELSE fin.f \notin L)
+        (* an undefined weak reference with default visibility in a dynamically linked output is left as
+           a DYNAMIC weak reference to its own name: the run-time linker binds it to a linked shared
+           object that defines that name, if there is one *)
+        dynProviders == {g \in L : Shared(fs, g) /\ IsDefKind(D(fs, g, n))}
     IN IF s = NoSym \/ dropped \/ fin.f \notin L
-       THEN (IF weak THEN [t |-> "zero", f |-> 0, n |-> ""] ELSE NoTarget)
+       THEN (IF weak
+             THEN (IF V(fs, f, n) = "default" /\ dynProviders # {}
+                   THEN [t |-> "dyn", f |-> MinOf(dynProviders), n |-> n]
+                   ELSE [t |-> "zero", f |-> 0, n |-> ""])
+             ELSE NoTarget)
        ELSE IF Shared(fs, fin.f) THEN [t |-> "dyn", f |-> fin.f, n |-> fin.n]
        ELSE IF IsCommon(D(fs, fin.f, fin.n)) THEN [t |-> D(fs, fin.f, fin.n), f |-> fin.f, n |-> fin.n]
        ELSE [t |-> "def", f |-> fin.f, n |-> fin.n]
